@@ -37,6 +37,7 @@ from .. import core
 from .. import cox_common as cc
 
 MATS, RADS, OBS, EDGES, INFO, CONFIGS, CONTAINERS = [], [], [], [], {}, [], list(cc.DIAGRAM_CONTAINERS)
+LABEL_TYPES = list(cc.LABEL_TYPES)
 
 
 def as_obj(x):
@@ -179,7 +180,8 @@ def check_config(m, ball, cfgd):
     n = len(M)
     bad = []
     try:
-        G, names = cc.build_group(M, cfgd["route"], cfgd["style"], cfgd["inf"], cfgd.get("container", "list"))
+        G, names, input_unchanged = cc.build_group_ex(M, cfgd["route"], cfgd["style"], cfgd["inf"], cfgd.get("container", "list"),
+                                                      cfgd.get("labels", "int"))
     except Exception as e:
         return [("raised:CoxeterGroup", "%s: %s" % (type(e).__name__, e))], 1
     evals = 0
@@ -190,13 +192,26 @@ def check_config(m, ball, cfgd):
     Bexp = cosine_matrix(M)
     sg = signature(M, info["sig"])
     kinds = as_obj(info["cartan"])
-    try:
-        B = np.asarray(G.bilinear_form(), dtype=float)
-        evals += 1
-        if B.shape != (n, n) or np.abs(B - Bexp).max() > 1e-12:
-            bad.append(("bilinear_form", "bilinear_form() = %r, cosine matrix %r" % (np.round(B, 12).tolist(), np.round(Bexp, 12).tolist())))
-    except Exception as e:
-        bad.append(("raised:bilinear_form", "%s: %s" % (type(e).__name__, e)))
+    def object_unchanged(after):
+        """a query must not change the group (its coxeter_matrix) nor the caller's input"""
+        cm = np.asarray(G.coxeter_matrix)
+        if cm.shape != (n, n) or not np.array_equal(cm, np.array(LM)):
+            return [("object_unchanged", "after %s: coxeter_matrix is %r, was %r" % (after, np.round(cm.astype(float), 9).tolist(), LM))]
+        d = input_unchanged()
+        return [("input_unchanged", "after %s: %s" % (after, d))] if d else []
+    # the form, asked twice of the same object (then every representation is built after earlier queries)
+    for call in (1, 2):
+        try:
+            B = np.asarray(G.bilinear_form(), dtype=float)
+            evals += 1
+            if B.shape != (n, n) or np.abs(B - Bexp).max() > 1e-12:
+                bad.append(("bilinear_form" if call == 1 else "bilinear_form.repeated", "call %d of bilinear_form() = %r, cosine matrix %r"
+                            % (call, np.round(B, 12).tolist(), np.round(Bexp, 12).tolist())))
+                break
+        except Exception as e:
+            bad.append(("raised:bilinear_form", "%s: %s" % (type(e).__name__, e)))
+            break
+        bad += object_unchanged("call %d of bilinear_form()" % call)
     use_diag = diag and sg is not None
     D = np.diag([-1.0] * sg[0] + [1.0] * sg[1]) if use_diag else Bexp
     tol = 1e-7 if use_diag else 1e-9
@@ -282,6 +297,8 @@ def check_config(m, ball, cfgd):
                         break
         except Exception as e:
             bad.append(("raised:hyperbolic_rep", "%s: %s" % (type(e).__name__, e)))
+    if not any(c in ("object_unchanged", "input_unchanged") for c, _ in bad):
+        bad += object_unchanged("building all representations")
     return bad, evals
 
 
@@ -295,6 +312,7 @@ def check_matrix(args):
         if cfgd["route"] == "diagram":
             # "an iterable of tuples": containers and one-shot iterables in rotation
             cfgd["container"] = CONTAINERS[(m + ci) % len(CONTAINERS)]
+        cfgd["labels"] = LABEL_TYPES[(m + (ci >> 1)) % len(LABEL_TYPES)]
         bad, ev = check_config(m, ball, cfgd)
         tot += ev
         for clause, detail in bad[:4]:
@@ -362,7 +380,7 @@ def check_triangle(args):
 
 
 def run(run, replay=None):
-    global MATS, RADS, OBS, EDGES, INFO, CONFIGS, CONTAINERS
+    global MATS, RADS, OBS, EDGES, INFO, CONFIGS, CONTAINERS, LABEL_TYPES
     quick = run.tier == "quick"
     rng = random.Random(run.seed)
     run.rule = ("a case is one (Coxeter matrix, configuration) pair: all representations of the library evaluated on every "
@@ -409,6 +427,9 @@ def run(run, replay=None):
         "tits_vinberg_rep / cartan_representation are not combined with diagonalize; every pair of generators is listed in a diagram; "
         "the diagram is handed over as list / tuple / generator / zip / iterator / map in rotation (documented as 'an iterable of tuples')",
         "infinite order of a product: powers up to 13 differ from I",
+        "labels handed over as int64 or as float64 with integral values (matrix dtype / diagram labels), alternating; on every group object "
+        "bilinear_form() is asked twice and every representation is built after earlier queries; coxeter_matrix and the caller's input must "
+        "be unchanged after each",
     ]
     workers = min(8, core.NCPU)
     r, OBS, EDGES, INFO, tables = cc.run_batch(
@@ -422,6 +443,9 @@ def run(run, replay=None):
     if "DGC" not in tables or not set(tables["DGC"]) <= set(cc.DIAGRAM_CONTAINERS):
         raise core.MachineryFailure("CoxeterRep.tla did not print the table of diagram containers")
     CONTAINERS = sorted(tables["DGC"])
+    if "LBT" not in tables or not set(tables["LBT"]) <= set(cc.LABEL_TYPES):
+        raise core.MachineryFailure("CoxeterRep.tla did not print the table of label types")
+    LABEL_TYPES = sorted(tables["LBT"], reverse=True)      # int, float
     ncfg = len(CONFIGS)
     plan = []
     for m in range(len(MATS)):
@@ -455,7 +479,7 @@ def run(run, replay=None):
         run.evaluations += tot
         run.traces += 1
         for ctx, clause, detail in bad:
-            key = "cox:%s:%s/%s/%s/%s" % (cc.short(ctx["matrix"]), ctx["route"] + ("(%s)" % ctx["container"] if "container" in ctx else ""),
+            key = "cox:%s:%s/%s/%s/%s" % (cc.short(ctx["matrix"]), ctx["route"] + ("(%s)" % ctx["container"] if "container" in ctx else "") + ("[float]" if ctx.get("labels") == "float" else ""),
                                           ctx["style"], "diag" if ctx["diag"] else "plain", ctx["inf"])
             run.violation(key, clause, dict(case=ctx, observed=detail))
         if sample:
